@@ -145,6 +145,8 @@ Proof.
     unfold finish_call in Hc. cbn [lc Z.eqb negb andb] in Hc.
     change (validate_utf8 (set_state t1 S_finish)) with (validate_utf8 t1) in Hc. rewrite F7, Hv in Hc. cbn [andb] in Hc.
     rewrite st_set_state in Hc. cbn [tstate_eqb negb andb] in Hc.
+    assert (Hd0 : (depth (set_state t1 S_finish) =? 0) = true) by (unfold depth, set_state, set_top; cbn [stack]; rewrite Es; reflexivity).
+    rewrite Hd0 in Hc. cbn [negb orb andb] in Hc.
     change (err (set_state t1 S_finish)) with (err t1) in Hc. rewrite F3 in Hc.
     inversion Hc. unfold top, set_state, set_top, set_err, top. cbn [stack]. rewrite Es. reflexivity.
   - (* the first call asks for more input: the second call is the rest of the single call *)
